@@ -139,6 +139,7 @@ func Load(mode LoadMode, overlay map[string][]byte, goos string) (*Program, erro
 	}
 	prog.Build()
 	p.SSA = prog
+	lastProgram = p
 	for _, sp := range prog.AllPackages() {
 		p.SSAPkgs[sp.Pkg.Path()] = sp
 	}
@@ -352,3 +353,33 @@ func (p *Program) soleCaller(h *ssa.Function) *ssa.Function {
 	}
 	return caller
 }
+
+// directCallee: the function named owner calls the function named helper (same
+// package) directly.
+func (p *Program) directCallee(helper, owner string) bool {
+	var h, o *ssa.Function
+	for _, f := range p.RepoFuncs() {
+		switch fnName(f) {
+		case helper:
+			h = f
+		case owner:
+			o = f
+		}
+	}
+	if h == nil || o == nil || h == o || fnPkgPath(h) != fnPkgPath(o) {
+		return false
+	}
+	found := false
+	for _, g := range withClosures(o) {
+		eachCall(g, func(cl ssa.CallInstruction) {
+			if cl.Common().StaticCallee() == h {
+				found = true
+			}
+		})
+	}
+	return found
+}
+
+// lastProgram: the program loaded last (rules that must look at every call of a
+// helper from inside a value-level predicate use it).
+var lastProgram *Program
